@@ -80,6 +80,8 @@ def queries(tier):
     A, B, C, D = ({"tq.m1": v} for v in "abcd")
     NONE = {"exec_none": True}
     # (s, s)
+    qs.append(q("same.T1main.restart", "T1main", [{"variants": {"__main__": "a"}}, {"variants": {"__main__": "a"}, "leaves_from": 0, "restart": True, "style": "eval", "expect": NONE}]))
+    qs.append(q("outside.T1main.defs", "T1main", [{"variants": {"__main__": "a"}}, {"variants": {"__main__": "c"}, "leaves_from": 0, "expect": {"exec_none": True, "same_sig": [0, ["/t1/f"]]}}]))
     qs.append(q("same.T1.call", "T1", [{"variants": A}, {"variants": A, "leaves_from": 0, "expect": NONE}]))
     qs.append(q("same.T1.restart", "T1", [{"variants": A}, {"variants": A, "leaves_from": 0, "restart": True, "expect": NONE}]))
     qs.append(q("same.T1.call-eval", "T1", [{"variants": A, "style": "call"}, {"variants": A, "leaves_from": 0, "style": "eval", "expect": NONE}]))
